@@ -6,6 +6,18 @@ ALL = ["C%02d" % i for i in range(1, 21)]
 
 # id -> dict(level, text, note, technique, design)
 CLAIMED = {
+    "C09": dict(
+        level="other",
+        text="Partial, structural: 'status zero means complete, compilable output' for all grammars and spellings. Every insertion point of every template is walked with the Go lexical context it lands in and the class of text its producers can put there (producers found in the generator's SSA; constant printf formats expanded verb by verb); a context x class matrix decides whether the insertion can break the output's token structure (R09.1). The instantiated templates type-check in all variants (R09.2). On every normally-returning path of main the required generators run under exactly the stated conditions and call all their writers (R09.3). No error of template execution, formatting or file writing is dropped on a path to status zero (R09.4).",
+        note="NOT decided: termination of gocc for every input (worklist loops over unbounded grammars). Assumes -p is a valid import path and header/actions are valid Go (the property's premise). Trusted: text/template/parse, go/ssa, the context machine and class table in checker/splice.go.",
+        technique="static analysis: lexical-context tracking over template parse trees x provenance classes from SSA; return-restricted post-dominance for output completeness; error-value flow",
+        design="§4 C09, §3 E6"),
+    "C10": dict(
+        level="other",
+        text="Decided structurally: INVALID = 0, EOF = 1; the symbol table registers INVALID and the end marker first, Add numbers unseen ids consecutively and never renumbers, terminals are listed in that order, NewTokenMap fills both directions together (R10.2); main registers token ids before listing terminals and hands the one TokenMap to all three generators (R10.3); lexer Accept = IdMap[id], parser columns = indices of TypeMap, Scan stores Accept into tok.Type, Parse indexes rows by the look-ahead's Type (R10.4); idMap entry i = %q of typeMap entry i with value i, and both templates print them in string-safe form (R10.5); generated Type/Id lookups (R10.6).",
+        note="Assumes %q (strconv.Quote) is injective. Trusted: go/ssa, checker/sx.go, checker/splice.go.",
+        technique="static analysis: event-order / transfer tables by abstract interpretation + SSA value identity and dominance in main + splice classes",
+        design="§4 C10"),
     "C11": dict(
         level="other",
         text="Structural decision of determinism: every loop whose order the language leaves open (map ranges, ranges over permutation-valued slices) is classified against order-insensitive idioms; the rest are taint sources whose explicit and implicit (control-dependence) flows, computed over the SSA of all reachable module functions, must reach no .go output, exit status or panic. Goroutines, channels, clocks, randomness, environment reads, address printing and maps in the gob payload are excluded by enumeration. This is the right level because nondeterminism has a finite set of syntactic sources in a cgo-free Go program.",
